@@ -59,6 +59,16 @@ func drawScalar(t *rapid.T, n int) *big.Int {
 func (p *Prog) drawValue(t *rapid.T, T Type) *big.Int {
 	switch T.K {
 	case KBool, KInt, KUint:
+		if T.K != KBool && rapid.IntRange(0, 7).Draw(t, "inliteral") == 0 {
+			// A value the program itself mentions (equality tests and
+			// table look-ups with constants are only interesting on
+			// those), or a neighbour of it.
+			if lits := p.literals(); len(lits) > 0 {
+				v := new(big.Int).Set(lits[rapid.IntRange(0, len(lits)-1).Draw(t, "inlit")])
+				v.Add(v, big.NewInt(int64(rapid.SampledFrom([]int{0, 0, 0, -1, 1}).Draw(t, "inlitdelta"))))
+				return Wrap(v, p.Bits(T))
+			}
+		}
 		return drawScalar(t, p.Bits(T))
 	case KArray:
 		res := new(big.Int)
@@ -77,6 +87,50 @@ func (p *Prog) drawValue(t *rapid.T, T Type) *big.Int {
 		return res
 	}
 	panic("drawValue " + T.K)
+}
+
+// literals returns the values of the literals and package-level constants of
+// the program (at most 64).
+func (p *Prog) literals() []*big.Int {
+	var res []*big.Int
+	seen := map[string]bool{}
+	add := func(val string) {
+		if v, ok := new(big.Int).SetString(val, 0); ok && !seen[v.String()] && len(res) < 64 {
+			seen[v.String()] = true
+			res = append(res, v)
+		}
+	}
+	for _, c := range p.Consts {
+		add(c.Val)
+	}
+	var expr func(e *Expr)
+	expr = func(e *Expr) {
+		if e == nil {
+			return
+		}
+		if e.Op == ELit {
+			add(e.Val)
+		}
+		for _, a := range e.A {
+			expr(a)
+		}
+	}
+	var stmts func(list []*Stmt)
+	stmts = func(list []*Stmt) {
+		for _, s := range list {
+			expr(s.E)
+			for _, e := range s.Es {
+				expr(e)
+			}
+			stmts(s.Then)
+			stmts(s.Else)
+			stmts(s.Body)
+		}
+	}
+	for _, f := range p.Funcs {
+		stmts(f.Body)
+	}
+	return res
 }
 
 // DrawInputs draws input vectors for main: all assignments when the inputs
